@@ -265,7 +265,45 @@ def tty_server(baud=115200, cls=None):
 
 
 # ---------------------------------------------------------------- stub sockets for gpsd
-class StubSocket:
+class _SocketExtras:
+    """The rest of the socket API a backend may reasonably touch; nothing here carries data."""
+    def __enter__(self):
+        return self
+
+    def __exit__(self, *a):
+        self.close()
+
+    def setblocking(self, flag):
+        pass
+
+    def gettimeout(self):
+        return None
+
+    def setsockopt(self, *a):
+        pass
+
+    def getsockopt(self, *a):
+        return 0
+
+    def fileno(self):
+        return -1
+
+    def getsockname(self):
+        return ('127.0.0.1', 0)
+
+    def getpeername(self):
+        return ('127.0.0.1', 2947)
+
+    def detach(self):
+        return -1
+
+    def recv_into(self, buf, nbytes=0, flags=0):
+        d = self.recv(nbytes or len(buf))
+        buf[:len(d)] = d
+        return len(d)
+
+
+class StubSocket(_SocketExtras):
     plan = None      # dict: reply (bytes) or exception class, set per test
 
     def __init__(self, family=None, typ=None):
@@ -282,15 +320,15 @@ class StubSocket:
     def settimeout(self, t):
         pass
 
-    def sendall(self, data):
+    def sendall(self, data, flags=0):
         StubSocket.plan.setdefault('sent', []).append(bytes(data))
         if StubSocket.plan.get('send_error'):
             raise StubSocket.plan['send_error']('send failed')
 
-    def send(self, data):
+    def send(self, data, flags=0):
         StubSocket.plan.setdefault('data_sent', []).append(bytes(data))
 
-    def recv(self, n):
+    def recv(self, n, flags=0):
         if self.family == real_socket.AF_UNIX:
             r = StubSocket.plan.get('reply')
             if isinstance(r, type) and issubclass(r, BaseException):
@@ -311,7 +349,7 @@ class StubSocket:
         self.closed = True
 
 
-class ScriptSocket:
+class ScriptSocket(_SocketExtras):
     """socket.socket as ubxlib.server uses it, following a request script (model/LineBackend.v: gpsd_script_backend):
     the data socket (AF_INET) delivers the handshake chunks first and then one pending event per recv(); every command
     on a control socket (AF_UNIX) starts the next scripted attempt and is answered OK / ACK or ERROR."""
@@ -327,11 +365,11 @@ class ScriptSocket:
     def settimeout(self, t):
         pass
 
-    def send(self, data):
+    def send(self, data, flags=0):
         ScriptSocket.st.setdefault('data_sent', []).append(bytes(data))
         return len(data)
 
-    def sendall(self, data):
+    def sendall(self, data, flags=0):
         st = ScriptSocket.st
         cmd = bytes(data)
         st.setdefault('commands', []).append(cmd)
@@ -350,7 +388,7 @@ class ScriptSocket:
         st['trace'].append(('T', payload, ok))
         st['heads'] = st.get('heads', []) + [head]
 
-    def recv(self, n):
+    def recv(self, n, flags=0):
         st = ScriptSocket.st
         if self.family == real_socket.AF_UNIX:
             return self.reply
@@ -384,9 +422,16 @@ def gpsd_server(device_name=None, sock_cls=None):
     from ubxlib.frame_factory import FrameFactory
     FrameFactory.destroy()
     import ubxlib.server as SV
-    stub = types.SimpleNamespace(socket=sock_cls or StubSocket, AF_INET=real_socket.AF_INET, AF_UNIX=real_socket.AF_UNIX,
-                                 SOCK_STREAM=real_socket.SOCK_STREAM, SHUT_RDWR=real_socket.SHUT_RDWR,
-                                 timeout=real_socket.timeout, error=real_socket.error)
+    cls_ = sock_cls or StubSocket
+
+    def create_connection(address, timeout=None, source_address=None):
+        sk = cls_(real_socket.AF_INET, real_socket.SOCK_STREAM)
+        sk.connect(address)
+        return sk
+    # the real socket module's constants and exception classes, with the socket class (and helper) replaced
+    stub = types.SimpleNamespace(**{k: getattr(real_socket, k) for k in dir(real_socket) if k.isupper() or k in ('timeout', 'error', 'gaierror', 'herror')})
+    stub.socket = cls_
+    stub.create_connection = create_connection
     SV.socket = stub
     StubSocket.plan = {}
     s = SV.GnssUBlox(device_name)
